@@ -184,6 +184,12 @@ func (w *World) verifyFunctionPass(pi *PkgInfo, fn *ssa.Function, c *Contract, r
 			u.assume(merged, t, "hint (proved above): "+en.Text)
 		}
 		for i, en := range c.Ensures {
+			if en.Assumed {
+				// `trust` clause: exported to callers, not proved here; listed in the evidence (the spec must still evaluate)
+				u.evalClauseIn(env, en)
+				res.Assumes = append(res.Assumes, fmt.Sprintf("assumed clause (trust, exported to callers, NOT proved against the body) %s [%s]: %s", u.unitName(), en.Tag, en.Text))
+				continue
+			}
 			t := u.evalClauseIn(env, en)
 			u.oblige(merged, "ensures", fmt.Sprintf("postcondition %d: %s", i+1, en.Text), fn.Pos(), t, en.Tag)
 		}
